@@ -70,6 +70,8 @@ func genC10(g *simrt.Tape, tier string) any {
 		}
 		sc.Callers = append(sc.Callers, cs)
 	}
+	sc.DefaultDialer = g.Draw(4) == 0
+	sc.DialCtxCancelled = g.Draw(4) == 0
 	closes := g.Draw(3) == 1
 	nb := 1 + g.Draw(5)
 	for i := 0; i < nb; i++ {
